@@ -39,7 +39,9 @@ def introspect_meta(S, B, torch):
             if isinstance(k, type) and hasattr(k, "__enter__") and hasattr(k, "__exit__") and \
                     k.__module__ in (S.__name__, B.__name__):
                 found.setdefault(name, k)
-    bases = {b.__name__ for k in found.values() for b in k.__mro__[1:]}
+    # left out: only the framework bases (classes that are subclassed AND define __enter__ themselves); a concrete
+    # setting that happens to have a subclass (e.g. a private _linalg_dtype_* class) stays in the table
+    bases = {b.__name__ for k in found.values() for b in k.__mro__[1:] if "__enter__" in vars(b)}
     prim, comp, kinds = [], [], {}
     for name, k in sorted(found.items()):
         if name in bases:
@@ -138,13 +140,18 @@ class Spec:
                 new[i] = o
         return new
 
-    def run(self, hist):
+    def run(self, hist, obs=None):
         """expected sparse observation after every event; the list ends before the first event that is not
-        covered by the specification (exit that does not match the innermost open enter, unknown class)"""
+        covered by the specification (exit that does not match the innermost open enter, unknown class).
+        obs (the implementation's run) only tells which constructions / enters RAISED ('err') and which events
+        were therefore not executed ('skip'): such events leave everything as it is and open no block."""
         cur, stack, objs, out = {}, [], [], []
-        for e in hist:
+        for j, e in enumerate(hist):
+            tag = obs[j][0] if (obs is not None and j < len(obs)) else "ok"
             if e[0] == "new":
                 objs.append((e[1], e[2]))
+            elif tag in ("err", "skip"):
+                pass
             elif e[0] == "enter":
                 if e[1] >= len(objs):
                     break
@@ -161,6 +168,11 @@ class Spec:
         return out
 
 
+def invalid_args(args):
+    """argument patterns a validating setter may legitimately refuse: a negative number among the arguments"""
+    return any(isinstance(a, (int, float)) and not isinstance(a, bool) and a < 0 for a in args)
+
+
 def touched(meta, k):
     if k in meta["prim"]:
         return [k]
@@ -172,17 +184,34 @@ def touched(meta, k):
 def spec_failure(meta, spec, hist, obs):
     """compare the implementation's observations with the reference specification.
     returns None or (category, event index, text)"""
-    exp = spec.run(hist)
-    objk = []
+    exp = spec.run(hist, obs)
+    objk, obja = [], []
     for j, e in enumerate(hist):
         if e[0] == "new":
             objk.append(e[1])
+            obja.append(e[2])
         if j >= len(exp) or j >= len(obs):
             return None
         o = obs[j]
         k = e[1] if e[0] == "new" else (objk[e[1]] if e[1] < len(objk) else "?")
         if o[0] == "err":
+            args = e[2] if e[0] == "new" else (obja[e[1]] if e[1] < len(obja) else [])
+            if e[0] in ("new", "enter") and invalid_args(args) and len(o) > 2:
+                # a refused construction / enter is legitimate for such arguments, but it must be all-or-nothing
+                if dict(o[2]) != dict(exp[j]):
+                    got, want = dict(o[2]), dict(exp[j])
+                    i = next(i for i in sorted(set(got) | set(want)) if got.get(i, spec.base[i]) != want.get(i, spec.base[i]))
+                    c = meta["prim"][i]
+                    return ("failed-enter-changes-settings", j,
+                            "event %d: %s of %s%s raised %s, but afterwards observers %s of %s report %s instead of %s (a refused "
+                            "%s must leave every setting as it was)" % (j, e[0], k, tuple(args), o[1], "/".join(meta["observers"][c]), c,
+                                                                        show(meta, got.get(i, spec.base[i])), show(meta, want.get(i, spec.base[i])), e[0]))
+                continue
             return ("raises", j, "event %d %s on %s raised %s (construct/enter/exit of a well-nested history must not fail)" % (j, e[0], k, o[1]))
+        if o[0] == "skip":
+            if dict(o[1]) != dict(exp[j]):
+                return ("failed-enter-changes-settings", j, "event %d (not executed: its enter was refused) finds settings %s instead of %s" % (j, o[1], exp[j]))
+            continue
         if o[2]:
             return ("swallows-exception", j, "event %d: %s.__exit__ returned a true value (the exception of the with-block would be swallowed)" % (j, k))
         if len(o) > 3 and o[3]:
